@@ -98,7 +98,7 @@ impl Storage {
     #[verifier::external_body]
     pub fn get_latest_matched_blocks(&self) -> (r: Option<(u64, u64, Vec<(Byte32, bool)>)>) { unimplemented!() }
     #[verifier::external_body]
-    pub fn remove_matched_blocks(&self, start_number: u64) { unimplemented!() }
+    pub fn remove_matched_blocks(&self, start_number: u64) requires mb_locked() /*props:C17*/ { unimplemented!() }
     #[verifier::external_body]
     pub fn get_genesis_block(&self) -> (r: Block) ensures r == self.s_genesis() { unimplemented!() }
     pub uninterp spec fn s_genesis(&self) -> Block;
